@@ -180,6 +180,9 @@ extern int mpt_connection_dispatch(MPT_STRUCT(connection) *con, MPT_TYPE(event_h
 		if (!(buf = con->out.buf._buf)) {
 			return MPT_ERROR(BadArgument);
 		}
+		sw.con = con;
+		sw.cmd = cmd;
+		sw.arg = arg;
 		return mpt_stream_dispatch((void *) buf, streamWrapper, &sw);
 	}
 	/* no new data present */
